@@ -147,7 +147,7 @@ def level_text(level, name, parent):
     return '\n'.join(lines) + '\n'
 
 
-def flatten(levels, entry):
+def flatten(levels, entry, want_rules=False):
     """the specification: one grammar equivalent to parsing through level `entry`"""
     out = {}
     todo = []
@@ -189,6 +189,8 @@ def flatten(levels, entry):
     while todo:
         pname, body, li = todo.pop()
         out[pname] = conv(body, li)
+    if want_rules:
+        return out
     ignores = []
     for li in range(entry, -1, -1):
         ignores += levels[li]['ignores']
@@ -198,6 +200,60 @@ def flatten(levels, entry):
         k += 1
         lines.append(f'ignore Ig{k} = {G.render(e)}')
     return '\n'.join(lines) + '\n'
+
+
+def _split_top(text):
+    out, depth, cur = [], 0, ''
+    for ch in text:
+        if ch == '(':
+            depth += 1
+        if depth == 0 and ch == ' ':
+            if cur:
+                out.append(cur)
+            cur = ''
+            continue
+        cur += ch
+        if ch == ')':
+            depth -= 1
+    if cur:
+        out.append(cur)
+    return out
+
+
+def flatten_tie(levels, entry, drv):
+    """the flattening this module computes against `Chain.flatProg`, the Lean construction that C13_flattening is about:
+    every rule of the harness's flattened grammar must be the rule at the corresponding index of the Lean one"""
+    import realrun
+    order = ['start'] + NAMES
+    N = len(order)
+    L = entry + 1
+    # one index space for the request (plain name k, super.k = N + k) and one for the answer (name k, private copy of the
+    # definition of k at Lean level l = N + l * N + k; Lean level 0 is the grammar entered, i.e. harness level `entry`)
+    req_names = order + [f'__super_{n}' for n in order]
+    flat_names = order + [f'{n}Sup{entry - l}' for l in range(L) for n in order] + ['__dead']
+    tw = realrun.TupleWire(req_names)
+    unsup = lambda b: subst(b, lambda r: REF(f'__super_{r[1]}') if r[0] == 'super' else r)       # noqa: E731
+    lvls = []
+    for l in range(L):
+        defs = ' '.join(f'({order.index(n)} {tw.expr(unsup(b))})' for n, b in levels[entry - l]['rules'])
+        lvls.append(f'(lvl {defs})')
+    reply = drv.ask(f'(flatten (n {N}) (levels {" ".join(lvls)}))')
+    if reply.startswith('error'):
+        return f'driver: {reply}'
+    lean_rules = _split_top(reply[len('(rules'):-1])
+    dead = f'(ref {len(flat_names) - 1})'
+    lean_rules = [r.replace(dead, 'fail') for r in lean_rules]       # `super.k` with no definition above: a rule that fails
+    tw2 = realrun.TupleWire(flat_names)
+    tw2.rx, tw2.rx_index = tw.rx, getattr(tw, 'rx_index', None)          # the same numbering of regular expressions
+    mine = flatten(levels, entry, want_rules=True)
+    for name, body in mine.items():
+        if name not in flat_names:
+            return f'the flattening has a rule {name} that the Lean construction has no place for'
+        want = lean_rules[flat_names.index(name)]
+        got = tw2.expr(body)
+        if ''.join(got.split()) != ''.join(want.split()):
+            return f'rule {name}: harness {got} Lean {want}'
+    return None
 
 
 _state = {}
@@ -290,12 +346,25 @@ def run(tier, seed, lean):
         for lv in levels:
             seen = list(dict.fromkeys(seen + [n for n, _ in lv['rules']]))
             avail.append(list(seen))
-        jobs.append({'id': i, 'texts': texts, 'flat': flats, 'inputs': inputs, 'base_before': None, 'names': avail})
+        jobs.append({'id': i, 'texts': texts, 'flat': flats, 'inputs': inputs, 'base_before': None, 'names': avail, 'levels': levels})
         for li, ft in enumerate(flats):
             flat_jobs.append({'id': len(flat_jobs), 'text': ft, 'cases': [(0, t) for t in inputs], 'entries': ['__module__'], 'fuel': 300,
                               'meta': {'ctx': f'flattened level {li}'}})
+    # the reference construction itself against the Lean function the flattening theorem is about
+    from common import Driver
+    drv = Driver()
+    tie_bad = []
+    tie_n = 0
+    for j in jobs:
+        for li in range(len(j['levels'])):
+            tie_n += 1
+            msg = flatten_tie(j['levels'], li, drv)
+            if msg and len(tie_bad) < 5:
+                tie_bad.append({'key': f'flatten-tie|{j["id"]}|{li}', 'kind': 'harness', 'grammar': ' || '.join(j['texts'])[:300],
+                                'what': f'flattening computed by the harness differs from Chain.flatProg at entry level {li}: {msg[:300]}'})
+    drv.close()
     results = corerun.pool_map(_job, jobs, _init, (bits,), chunksize=4)
-    violations, broken = [], []
+    violations, broken = [], list(tie_bad)
     evals = sum(r['n'] for r in results)
     nontrivial = sum(r['nontrivial'] for r in results)
     samples = []
@@ -335,6 +404,7 @@ def run(tier, seed, lean):
                  'Non-trivial = level whose inputs gave at least two outcome classes.'),
         'samples': samples,
         'chains': len(jobs),
+        'flattenings_compared_with_lean_flatProg': tie_n,
         'flattened_model_comparisons': summ['coverage']['evaluations'],
         'traces_validated_against_impl': summ['coverage']['evaluations'],
     }
